@@ -873,6 +873,20 @@ func gen(seed uint64, tier string) []string {
 			[3]string{"2", srv, fmt.Sprintf("a/0/1;%s;r/0/3+1;%s;a/0/4;%s;%s", c, c, c, c)},
 			[3]string{"2", srv, fmt.Sprintf("a/0/3;%s;r/0/3+1;%s;a/0/0;%s;a/0/3;%s", c, c, c, c)})
 	}
+	// the plain "full, resume, resume" history under an unchanged configuration that lists the suite explicitly: every
+	// ClientAuth policy x {client certificate, none} x GMSSL-only / auto-switch (GM and TLS clients) / plain TLS
+	for _, sk := range [][3]string{{"gm", "g", "e013"}, {"gm", "g", "e053"}, {"auto", "g", "e013"}, {"auto", "t12", "c02f"}, {"tls", "t12", "009c"},
+		{"tls", "t11", "002f"}, {"tls", "t10", "0035"}} {
+		for auth := 0; auth <= 4; auth++ {
+			for _, cc := range []string{"n", "t"} {
+				if cc == "n" && (auth == 2 || auth == 4) {
+					continue // the policy refuses the client altogether
+				}
+				c := fmt.Sprintf("c/0/%s/%s/%s/0/1", sk[1], sk[2], cc)
+				fixed = append(fixed, [3]string{"2", sk[0], fmt.Sprintf("s/0/%s;a/0/%d;%s;%s;%s", sk[2], auth, c, c, c)})
+			}
+		}
+	}
 	// resumption at TLS 1.0 / 1.1 / 1.2 with the suites of each version, plain-TLS and auto-switch servers, with a
 	// rotation that keeps the old key in the middle
 	for _, srv := range []string{"tls", "auto"} {
